@@ -3,6 +3,7 @@
 package middleware
 
 import (
+	"bytes"
 	"context"
 	"strconv"
 	"sync"
@@ -153,4 +154,53 @@ func HarnessC14Window() {
 	other, err := kr.IsDuplicate(context.Background(), "other")
 	vrt.Assert(err == nil && !other, "messages with different keys never suppress each other")
 	cancel()
+}
+
+// c14Payload: a payload of the given length with arbitrary bytes.
+func c14Payload(prefix string, n int) []byte {
+	b := make([]byte, n)
+	for i := range b {
+		b[i] = vrt.Byte(prefix + "." + strconv.Itoa(i))
+	}
+	return b
+}
+
+// HarnessC14Hashers: the built-in hashers give equal keys for payloads that are equal up to the read
+// limit (read limits below 64 are raised to 64), and SHA-256 gives different keys for payloads that
+// differ within it. Payload sizes straddle the 64-byte boundary.
+func HarnessC14Hashers() {
+	useSHA := vrt.Bool("sha256")
+	limits := []int64{1, 64, 65, 1 << 62}
+	limit := limits[vrt.Int("limit", 0, 3)]
+	eff := limit
+	if eff < 64 {
+		eff = 64
+	}
+	var hasher MessageHasher
+	if useSHA {
+		hasher = NewMessageHasherSHA256(limit)
+	} else {
+		hasher = NewMessageHasherAdler32(limit)
+	}
+	n1 := vrt.Int("len1", 63, 66)
+	n2 := vrt.Int("len2", 63, 66)
+	p1, p2 := c14Payload("p1", n1), c14Payload("p2", n2)
+	k1, err1 := hasher(message.NewMessage("a", p1))
+	k2, err2 := hasher(message.NewMessage("b", p2))
+	vrt.Assert(err1 == nil && err2 == nil, "hashing succeeds")
+	// are the payloads equal up to the effective read limit?
+	r1, r2 := n1, n2
+	if int64(r1) > eff {
+		r1 = int(eff)
+	}
+	if int64(r2) > eff {
+		r2 = int(eff)
+	}
+	samePrefix := bytes.Equal(p1[:r1], p2[:r2]) // one term, no per-byte path split
+	vrt.Observe("same.prefix", samePrefix)
+	if samePrefix {
+		vrt.Assert(k1 == k2, "payloads equal up to the read limit get equal keys")
+	} else if useSHA {
+		vrt.Assert(k1 != k2, "SHA-256: payloads that differ within the read limit get different keys")
+	}
 }
